@@ -775,6 +775,7 @@ const (
 	vLiquidAsset = "016f0279e9ed041c3d710a9f57d0c02928416460c4b722ae3457a11eec381c526d"
 	vBtcNetwork  = "mainnet"
 	vPeer        = "02aaaaaaaaaaaaaaaaaaaaaaaaaaaaaaaaaaaaaaaaaaaaaaaaaaaaaaaaaaaaaaaaaa"
+	vSelfNode    = "03bbbbbbbbbbbbbbbbbbbbbbbbbbbbbbbbbbbbbbbbbbbbbbbbbbbbbbbbbbbbbbbbbb" // this node, where a record names it as the initiator
 )
 
 type vEnv struct {
